@@ -195,14 +195,22 @@ def run(tier):
             early.append({"id": "y%d" % len(early), "mode": "stream", "bytes": t["bytes"], "split": 0, "noHandler": True, "desc": "no handler: %s" % t["name"]})
             if t["bytes"][0] >> 4 == 3:
                 early.append({"id": "y%d" % len(early), "mode": "stream", "bytes": [0x30, 3, 0, 1, 0x61] + t["bytes"], "split": 1, "noHandler": True, "desc": "no handler: good QoS 0 PUBLISH, then %s" % t["name"]})
+    # repeated CONNACKs on an established connection (nobody waits for them any more), then a malformed packet: the reader
+    # is still reading and ends the link
+    for t in tpl:
+        if t["name"] in ("puback-empty", "pub-empty", "suback-1"):
+            for k in (2, 3, 5):
+                early.append({"id": "y%d" % len(early), "mode": "stream", "bytes": [0x20, 2, 0, 0] * k + t["bytes"], "split": 0, "desc": "%d more CONNACKs, then %s" % (k, t["name"])})
     res_e, crashed_e = run_driver(binary, early, 20)
     earlyid = {s["id"]: s for s in early}
-    for r in res_e:
+    def judge_early(r):
         sc = earlyid[r["id"]]
         if r.get("res") or not r["died"] or r["errnil"] or not r["cbclosed"]:
             kind = "reader-stuck" if r.get("res") else "survived-malformed-packet" if not r["died"] else "death-not-reported"
             verd.witness(kind, sc["desc"][:60], "%s: died=%s Err() nil=%s Closed callback with that error=%s %s" % (sc["desc"], r["died"], r["errnil"], r["cbclosed"], r.get("res", "")),
                          {"scenario": sc, "result": r})
+    for r in res_e:
+        judge_early(r)
     # answers to an OUTSTANDING request that do not fit it (more / fewer / no return codes than filters, invalid codes,
     # acknowledgements of another kind or with trailing bytes for the same identifier): bytes from the broker like any
     # other -- the client does not panic, and once the connection has ended the outstanding call has returned
@@ -247,6 +255,11 @@ def run(tier):
     crashed = crashed + crashed_e
     res_p, crashed_p = run_driver(binary, parses, 2000)
     culprits, survivors = isolate_crashes(binary, crashed + crashed_p)
+    # scenarios of a crashed *early* batch that run through alone are judged by the rule of the early block, not by TraceFramer
+    for r in survivors:
+        if r["id"] in earlyid:
+            judge_early(r)
+    survivors = [r for r in survivors if r["id"] not in earlyid]
     res_s += [r for r in survivors if r["mode"] == "stream"]
     res_p += [r for r in survivors if r["mode"] == "parse"]
     for sc, text in culprits:
